@@ -245,6 +245,26 @@ void rebuildMath(TM &m)
                     c.equations.emplace_back(E[k].lhs, E[k].rhs);
                 }
             }
+            if (m.commentSeed != 0) {
+                // serialisation dimension: comments before the operator of an apply, inside ci, between equations
+                uint32_t lcg = m.commentSeed * 2654435761u + static_cast<uint32_t>(ci * 977u + pos * 131u);
+                auto inject = [&](const std::string &at, const std::string &with, unsigned oneIn) {
+                    std::string out;
+                    size_t from = 0;
+                    for (size_t f = content.find(at); f != std::string::npos; f = content.find(at, from)) {
+                        out += content.substr(from, f - from) + at;
+                        lcg = lcg * 1664525u + 1013904223u;
+                        if ((lcg >> 16) % oneIn == 0) {
+                            out += with;
+                        }
+                        from = f + at.size();
+                    }
+                    content = out + content.substr(from);
+                };
+                inject("<apply>", "<!-- op -->", 3);
+                inject("<ci>", "<!--v-->", 4);
+                inject("</apply>", "<!-- end -->", 6);
+            }
             c.math.push_back(mathBlockRaw(content, layout++));
             pos += bsz;
         }
@@ -466,6 +486,225 @@ bool addNlaReaders(TM &m, Src &src)
     return true;
 }
 
+// ------------------------------------------------------------------------------------------------ explorer shapes
+
+const char *shapeName(int sh)
+{
+    switch (sh) {
+    case S_RATE_READER: return "rate-reader";
+    case S_DOWNSTREAM_NLA: return "downstream-nla";
+    case S_SPARSE_NLA: return "sparse-nla-system";
+    case S_MIXED_GUESS_NLA: return "mixed-guess-nla-system";
+    case S_SELF_REFERENCE: return "self-reference";
+    }
+    return "none";
+}
+
+namespace {
+
+int addClassVar(TM &m, size_t ci, const std::string &stem, const TClass &t, const std::string &initial)
+{
+    VarSpec v;
+    v.name = freshName(m.spec.comps[ci], stem);
+    v.units = "dimensionless";
+    v.initial = initial;
+    m.spec.comps[ci].vars.push_back(v);
+    int cls = static_cast<int>(m.classes.size());
+    m.classes.push_back(t);
+    m.classes.back().added = true;
+    m.classOf[ci].push_back(cls);
+    int maxId = -1;
+    for (const auto &o : m.origin) {
+        for (int x : o) {
+            maxId = std::max(maxId, x);
+        }
+    }
+    m.origin[ci].push_back(maxId + 1);
+    return cls;
+}
+
+Expr localCi(const TM &m, int cls, size_t ci)
+{
+    return Expr::ci(m.spec.comps[ci].vars[static_cast<size_t>(m.instanceIn(cls, ci))].name);
+}
+
+void insertEq(TM &m, size_t ci, Eq e, Src &src)
+{
+    if (e.raw.empty() && src.flip(30)) {
+        std::swap(e.lhs, e.rhs);
+    }
+    m.eqs[ci].insert(m.eqs[ci].begin() + static_cast<long>(src.below(m.eqs[ci].size() + 1)), e);
+    m.blocks[ci].clear();
+}
+
+void nowHasNla(TM &m)
+{
+    if (m.type == "ode") {
+        m.type = "dae";
+    } else if (m.type == "algebraic") {
+        m.type = "nla";
+    }
+}
+
+bool constantLike(const TClass &t)
+{
+    return t.role == GtRole::CONSTANT || t.role == GtRole::COMPUTED_CONSTANT || ((t.role == GtRole::NLA || t.reader) && t.loose);
+}
+
+} // namespace
+
+bool addShape(TM &m, int shape, Src &src)
+{
+    switch (shape) {
+    case S_RATE_READER: {
+        // xr = ds/dt for an existing state s, and a new state whose ODE uses xr
+        std::vector<std::pair<size_t, size_t>> odes;
+        for (size_t ci = 0; ci < m.eqs.size(); ++ci) {
+            for (size_t k = 0; k < m.eqs[ci].size(); ++k) {
+                const Eq &e = m.eqs[ci][k];
+                if (e.defines >= 0 && m.classes[static_cast<size_t>(e.defines)].role == GtRole::STATE && e.raw.empty()) {
+                    odes.emplace_back(ci, k);
+                }
+            }
+        }
+        if (odes.empty()) {
+            return false;
+        }
+        auto at = src.pick(odes);
+        size_t ci = at.first;
+        const Eq ode = m.eqs[ci][at.second];
+        Expr diff = ode.lhs.op == Op::DIFF ? ode.lhs : ode.rhs;
+        TClass t;
+        t.role = GtRole::ALGEBRAIC;
+        t.deps = {ode.defines};
+        int xr = addClassVar(m, ci, "xr", t, "");
+        Eq e;
+        e.defines = xr;
+        e.lhs = localCi(m, xr, ci);
+        e.rhs = src.flip(50) ? diff : Expr::make(Op::TIMES, {lit("2"), diff});
+        insertEq(m, ci, e, src);
+        if (!src.flip(30)) {
+            TClass ts;
+            ts.role = GtRole::STATE;
+            ts.deps = {xr};
+            int q = addClassVar(m, ci, "qr", ts, "0.5");
+            Eq o;
+            o.defines = q;
+            o.lhs = Expr::make(Op::DIFF, {diff.kids[0], localCi(m, q, ci)});
+            o.rhs = Expr::make(Op::PLUS, {localCi(m, xr, ci), lit("1.5")});
+            insertEq(m, ci, o, src);
+        }
+        break;
+    }
+    case S_DOWNSTREAM_NLA: {
+        // cc (no guess) solved from 2 cc + sin(cc) = r, r preferably another NLA unknown or a state; a = cc + 1.5
+        std::vector<int> pref, any;
+        for (size_t k = 0; k < m.classes.size(); ++k) {
+            if (m.classes[k].role == GtRole::VOI) {
+                continue;
+            }
+            any.push_back(static_cast<int>(k));
+            if (m.classes[k].role == GtRole::NLA || m.classes[k].role == GtRole::STATE || m.classes[k].reader) {
+                pref.push_back(static_cast<int>(k));
+            }
+        }
+        if (any.empty()) {
+            return false;
+        }
+        int r = !pref.empty() && !src.flip(20) ? src.pick(pref) : src.pick(any);
+        auto where = m.compsWith(r);
+        int home = m.homeComp(r);
+        size_t ci = home >= 0 ? static_cast<size_t>(home) : src.pick(where);
+        TClass t;
+        t.role = GtRole::NLA;
+        t.deps = {r};
+        t.loose = constantLike(m.classes[static_cast<size_t>(r)]);
+        t.system = static_cast<int>(m.systems.size());
+        int cc = addClassVar(m, ci, "cc", t, "");
+        m.systems.push_back({cc});
+        Eq e;
+        e.system = t.system;
+        e.lhs = Expr::make(Op::PLUS, {Expr::make(Op::TIMES, {lit("2"), localCi(m, cc, ci)}), Expr::make(Op::SIN, {localCi(m, cc, ci)})});
+        e.rhs = src.flip(50) ? localCi(m, r, ci) : Expr::make(Op::PLUS, {localCi(m, r, ci), lit("0.5")});
+        insertEq(m, ci, e, src);
+        TClass ta;
+        ta.role = GtRole::ALGEBRAIC;
+        ta.reader = true;
+        ta.loose = t.loose;
+        ta.deps = {cc};
+        int a = addClassVar(m, ci, "ca", ta, "");
+        Eq ea;
+        ea.defines = a;
+        ea.lhs = localCi(m, a, ci);
+        ea.rhs = Expr::make(Op::PLUS, {localCi(m, cc, ci), lit("1.5")});
+        insertEq(m, ci, ea, src);
+        nowHasNla(m);
+        break;
+    }
+    case S_SPARSE_NLA:
+    case S_MIXED_GUESS_NLA: {
+        size_t ci = src.below(m.spec.comps.size());
+        int sys = static_cast<int>(m.systems.size());
+        bool mixed = shape == S_MIXED_GUESS_NLA;
+        TClass t;
+        t.role = GtRole::NLA;
+        t.system = sys;
+        t.guess = !mixed;
+        t.loose = mixed; // the unguessed unknown of a mixed system has constant inputs only
+        int x = addClassVar(m, ci, "sx", t, mixed ? "" : "1");
+        t.guess = true;
+        t.loose = false;
+        int y = addClassVar(m, ci, "sy", t, "0.5");
+        int z = addClassVar(m, ci, "sz", t, "1");
+        m.systems.push_back({x, y, z});
+        Expr X = localCi(m, x, ci), Y = localCi(m, y, ci), Z = localCi(m, z, ci);
+        std::vector<Eq> es(3);
+        if (!mixed) {
+            es[0].lhs = Expr::make(Op::PLUS, {X, Y});
+            es[0].rhs = lit("3");
+            es[1].lhs = Expr::make(Op::PLUS, {Y, Z});
+            es[1].rhs = lit("5");
+            es[2].lhs = Expr::make(Op::PLUS, {Z, X});
+            es[2].rhs = lit("4");
+        } else {
+            es[0].lhs = Expr::make(Op::PLUS, {X, Y, Z});
+            es[0].rhs = lit("3");
+            es[1].lhs = Expr::make(Op::TIMES, {X, Y});
+            es[1].rhs = lit("2");
+            es[2].lhs = Expr::make(Op::TIMES, {Y, Z});
+            es[2].rhs = lit("1");
+        }
+        for (auto &e : es) {
+            e.system = sys;
+            insertEq(m, ci, e, src);
+        }
+        nowHasNla(m);
+        break;
+    }
+    case S_SELF_REFERENCE: {
+        // xs = 2 xs - 3: the unknown stands alone on one side AND occurs on the other: an implicit equation
+        size_t ci = src.below(m.spec.comps.size());
+        TClass t;
+        t.role = GtRole::NLA;
+        t.loose = true;
+        t.system = static_cast<int>(m.systems.size());
+        int xs = addClassVar(m, ci, "xs", t, "");
+        m.systems.push_back({xs});
+        Eq e;
+        e.system = t.system;
+        e.lhs = localCi(m, xs, ci);
+        e.rhs = Expr::make(Op::MINUS, {Expr::make(Op::TIMES, {lit("2"), localCi(m, xs, ci)}), lit("3")});
+        insertEq(m, ci, e, src);
+        nowHasNla(m);
+        break;
+    }
+    default:
+        return false;
+    }
+    m.shape = shapeName(shape);
+    return true;
+}
+
 // ------------------------------------------------------------------------------------------------ transformations
 
 const char *transformName(int t)
@@ -479,6 +718,7 @@ const char *transformName(int t)
     case T_RENAME_COMPONENTS: return "rename-components";
     case T_RENAME_UNITS: return "rename-units";
     case T_RENAME_VARIABLES: return "rename-variables";
+    case T_COMMENTS: return "comments-in-math";
     }
     return "?";
 }
@@ -786,6 +1026,7 @@ void applyTransform(TM &m, int t, Src &src, unsigned renameScheme)
     case T_RENAME_COMPONENTS: renameComponents(m, src); break;
     case T_RENAME_UNITS: renameUnits(m, src); break;
     case T_RENAME_VARIABLES: renameVariables(m, src, renameScheme); break;
+    case T_COMMENTS: m.commentSeed = m.commentSeed != 0 ? 0 : 1 + static_cast<unsigned>(src.below(1000)); break;
     default: break;
     }
     rebuildMath(m);
@@ -806,6 +1047,7 @@ const char *variantName(int v)
     case V_SECOND_ORDER: return "second-order-ode";
     case V_UNUSED_VARIABLE: return "unused-variable";
     case V_EXTRA_NLA_EQUATION: return "extra-nla-equation";
+    case V_COUPLED_RATES: return "coupled-rates";
     }
     return "?";
 }
@@ -832,7 +1074,7 @@ std::vector<int> droppable(const TM &m)
         const TClass &t = m.classes[k];
         bool direct = t.role == GtRole::COMPUTED_CONSTANT || t.role == GtRole::ALGEBRAIC;
         bool single = t.role == GtRole::NLA && !t.guess && m.systems[static_cast<size_t>(t.system)].size() == 1;
-        if (!direct && !single) {
+        if ((!direct && !single) || t.added) {
             continue;
         }
         bool readByGuessSystem = false;
@@ -856,7 +1098,7 @@ std::vector<int> droppableConstants(const TM &m)
     std::vector<int> r;
     for (size_t k = 0; k < m.classes.size(); ++k) {
         const TClass &t = m.classes[k];
-        if (t.role != GtRole::CONSTANT || t.initialises) {
+        if (t.role != GtRole::CONSTANT || t.initialises || t.added) {
             continue;
         }
         bool readByGuessSystem = false;
@@ -887,7 +1129,7 @@ std::vector<int> redefinable(const TM &m)
                 continue;
             }
             const TClass &t = m.classes[static_cast<size_t>(e.defines)];
-            if (t.reader) {
+            if (t.reader || t.added) {
                 continue;
             }
             if (e.lhs.op == Op::CI && e.rhs.op == Op::CI) {
@@ -935,7 +1177,7 @@ void dropInitial(TM &m, int cls)
     }
 }
 
-void addSecondDefinition(TM &m, int cls, Src &src)
+void addSecondDefinition(TM &m, int cls, Src &src, int mention = -1)
 {
     for (size_t ci = 0; ci < m.eqs.size(); ++ci) {
         auto &E = m.eqs[ci];
@@ -948,6 +1190,11 @@ void addSecondDefinition(TM &m, int cls, Src &src)
             bool lhsIsTarget = (E[k].lhs.op == Op::CI && m.classes[static_cast<size_t>(cls)].role != GtRole::STATE) || E[k].lhs.op == Op::DIFF;
             e.lhs = lhsIsTarget ? E[k].lhs : E[k].rhs;
             e.rhs = lit(src.flip(50) ? "3" : "0.25");
+            if (mention >= 0 && m.instanceIn(mention, ci) >= 0) {
+                // the second definition reads the given class too, so that whichever of the two definitions ends up redundant
+                // mentions it
+                e.rhs = Expr::make(Op::PLUS, {localCi(m, mention, ci), e.rhs});
+            }
             if (src.flip(30)) {
                 std::swap(e.lhs, e.rhs);
             }
@@ -1032,15 +1279,27 @@ bool applyVariant(TM &m, int v, Src &src, std::string &expectedType, std::string
             }
         }
         for (size_t k = 0; k < m.classes.size(); ++k) {
-            if (m.classes[k].role == GtRole::STATE && static_cast<int>(k) != x && !m.dependsOn(static_cast<int>(k))[static_cast<size_t>(x)]) {
+            // a state that is not initialised is still a state: the redundant equation may read it (it must then not be blamed
+            // instead of being reported as not initialised)
+            if (m.classes[k].role == GtRole::STATE && static_cast<int>(k) != x) {
                 lose.emplace_back(2, static_cast<int>(k));
             }
         }
         if (lose.empty()) {
             return false;
         }
-        auto l = src.pick(lose);
-        addSecondDefinition(m, x, src);
+        // preferably a state the redefined class reads directly: the redundant equation then mentions a variable that is
+        // under-constrained itself
+        std::vector<std::pair<int, int>> direct;
+        for (const auto &cand : lose) {
+            const auto &dx = m.classes[static_cast<size_t>(x)].deps;
+            if (cand.first == 2 && std::find(dx.begin(), dx.end(), cand.second) != dx.end()) {
+                direct.push_back(cand);
+            }
+        }
+        bool useDirect = !direct.empty() && !src.flip(25);
+        auto l = useDirect ? src.pick(direct) : src.pick(lose);
+        addSecondDefinition(m, x, src, useDirect ? l.second : -1);
         if (l.first == 0) {
             dropDefinition(m, l.second);
         } else {
@@ -1188,6 +1447,44 @@ bool applyVariant(TM &m, int v, Src &src, std::string &expectedType, std::string
         m.blocks[ci].clear();
         expectedType = "overconstrained";
         what = "added one more implicit equation to NLA system " + std::to_string(k) + " than it has unknowns";
+        break;
+    }
+    case V_COUPLED_RATES: {
+        // two new states whose rates only occur together: dp/dt + dq/dt = 1, dp/dt - dq/dt = 0.5
+        if (m.voi < 0) {
+            return false;
+        }
+        auto where = m.compsWith(m.voi);
+        size_t ci = src.pick(where);
+        auto &c = m.spec.comps[ci];
+        std::string t = c.vars[static_cast<size_t>(m.instanceIn(m.voi, ci))].name;
+        VarSpec p, q;
+        p.name = freshName(c, "cp");
+        p.units = "dimensionless";
+        p.initial = "0";
+        c.vars.push_back(p);
+        q.name = freshName(c, "cq");
+        q.units = "dimensionless";
+        q.initial = "1";
+        c.vars.push_back(q);
+        for (int i = 0; i < 2; ++i) {
+            m.classOf[ci].push_back(-1);
+            m.origin[ci].push_back(-1);
+        }
+        Expr dp = Expr::make(Op::DIFF, {Expr::ci(t), Expr::ci(p.name)}), dq = Expr::make(Op::DIFF, {Expr::ci(t), Expr::ci(q.name)});
+        Eq e1, e2;
+        e1.lhs = Expr::make(Op::PLUS, {dp, dq});
+        e1.rhs = lit("1");
+        e2.lhs = Expr::make(Op::MINUS, {dp, dq});
+        e2.rhs = lit("0.5");
+        if (src.flip(30)) {
+            std::swap(e2.lhs, e2.rhs);
+        }
+        m.eqs[ci].insert(m.eqs[ci].begin() + static_cast<long>(src.below(m.eqs[ci].size() + 1)), e1);
+        m.eqs[ci].insert(m.eqs[ci].begin() + static_cast<long>(src.below(m.eqs[ci].size() + 1)), e2);
+        m.blocks[ci].clear();
+        expectedType = "underconstrained";
+        what = "added two states whose rates only occur together (dp/dt + dq/dt = 1, dp/dt - dq/dt = 0.5) to component " + c.name;
         break;
     }
     default:
